@@ -61,7 +61,7 @@ theorem closure_sound (P : St → Prop) (hP : ∀ s t, P s → TauStep s t → P
     | cons s todo =>
       simp only [closure] at ht
       have hs : P s := htodo s (by simp)
-      have hnew : ∀ u ∈ ((tauSucc s).filter fun t => !(acc.contains t) && !(todo.contains t)).foldl insertNew [],
+      have hnew : ∀ u ∈ ((tauSucc s).filter fun t => !(acc.contains t)).foldl insertNew [],
           P u := by
         intro u hu
         rcases mem_foldl_insertNew _ [] u hu with h | h
